@@ -83,3 +83,20 @@
 (assert (forall ((s BSeq) (n Int)) (! (= (len (rpad0 s n)) (imax (len s) n)) :pattern ((rpad0 s n)))))
 ; the operating system's random stream (an arbitrary infinite sequence)
 (declare-fun rng () BSeq)
+
+; ---- net/url vocabulary (uninterpreted) -------------------------------------
+; abstract contents of string->string maps and url.Values: qempty, qset(m,k,v); qhas / qval read them;
+; qenc(m) is Values.Encode(), qdec(s) the contents of (*URL).Query() for RawQuery s; qget(s,k) = qval(qdec(s),k)
+(declare-fun qempty () BSeq)
+(declare-fun qset (BSeq BSeq BSeq) BSeq)
+(declare-fun qhas (BSeq BSeq) Bool)
+(declare-fun qval (BSeq BSeq) BSeq)
+(declare-fun qenc (BSeq) BSeq)
+(declare-fun qdec (BSeq) BSeq)
+(assert (forall ((k BSeq)) (! (and (not (qhas qempty k)) (= (qval qempty k) empty)) :pattern ((qhas qempty k)) :pattern ((qval qempty k)))))
+(assert (forall ((m BSeq) (k BSeq) (v BSeq) (j BSeq)) (! (= (qhas (qset m k v) j) (or (SeqEq j k) (qhas m j))) :pattern ((qhas (qset m k v) j)))))
+(assert (forall ((m BSeq) (k BSeq) (v BSeq) (j BSeq)) (! (= (qval (qset m k v) j) (ite (SeqEq j k) v (qval m j))) :pattern ((qval (qset m k v) j)))))
+; library round trip (assumed): parsing an encoded query gives its contents back
+(assert (forall ((m BSeq) (k BSeq)) (! (and (= (qval (qdec (qenc m)) k) (qval m k)) (= (qhas (qdec (qenc m)) k) (qhas m k))) :pattern ((qval (qdec (qenc m)) k)) :pattern ((qhas (qdec (qenc m)) k)))))
+(define-fun qget ((s BSeq) (k BSeq)) BSeq (qval (qdec s) k))
+(declare-fun pesc (BSeq) BSeq)
